@@ -3,7 +3,7 @@ From UV Require Export Blocks.PbLen File.Spec.
 Local Open Scope N_scope.
 
 Definition fp_init : N := 14695981039346656037.
-Definition fp_word (h x : N) : N := (N.lxor h x * 1099511628211) mod 18446744073709551616.
+Definition fp_word (h x : N) : N := N.land (N.lxor h x * 1099511628211) 18446744073709551615.   (* mod 2^64 *)
 Definition fp_bytes (h : N) (b : bytes) : N := fold_left fp_word b (fp_word h (blen b)).
 
 Fixpoint fp (b : blk) : N :=
